@@ -321,7 +321,18 @@ impl<'a> Gen<'a> {
     fn invalid_name_path(&mut self) -> String {
         let st = self.storages();
         let mut p = st[self.rng.usize_below(st.len())].clone();
-        let bad = match self.rng.below(5) {
+        // an invalid name is InvalidInput wherever it is asked for: also under a parent that
+        // does not exist
+        if self.rng.chance(1, 6) {
+            p.push("no-such-parent".into());
+        }
+        let bad = match self.rng.below(7) {
+            // too long in UTF-16 units although not in characters (each is a surrogate pair)
+            5 => "\u{1F600}".repeat(self.rng.range(16, 31) as usize),
+            6 => {
+                let k = self.rng.range(1, 15) as usize;
+                "\u{10400}".repeat(k) + &"z".repeat(32 - 2 * k)
+            }
             0 => "a:b".to_string(),
             1 => "x!y".to_string(),
             2 => "back\\slash".to_string(),
